@@ -3,6 +3,7 @@ Hessian diagonalisation and projection routines. See autode/common/hessians.pdf
 for mathematical background
 """
 import numpy as np
+from copy import deepcopy
 import multiprocessing as mp
 
 from functools import cached_property
@@ -92,6 +93,15 @@ class Hessian(ValueArray):
         arr.functional = functional
 
         return arr
+
+    def __deepcopy__(self, memo):
+        """Deep copy that retains the atoms and functional attributes"""
+        return self.__class__(
+            np.array(self, copy=True),
+            units=self.units,
+            atoms=deepcopy(getattr(self, "atoms", None), memo),
+            functional=getattr(self, "functional", None),
+        )
 
     @cached_property
     def n_tr(self) -> int:
